@@ -1,5 +1,5 @@
 """C14 — invalid input is rejected: guard / atomicity clauses (DESIGN.md section 3 / C14)."""
-from lib import labelvalid, a64common, core, precede, emitatomic, cfg, errreport, subscript
+from lib import labelvalid, a64common, core, precede, emitatomic, cfg, errreport, subscript, nodeadd
 
 
 def run(chk):
@@ -36,6 +36,8 @@ def run(chk):
     errreport.run_code_guard(chk)
     # C14.d constant tables are never read out of bounds
     subscript.run_units(chk)
+    nodeadd.run(chk)
+
     return chk.finish(
         level="other",
         explanation=("Guard and atomicity rules over the emit paths of /repo's current source: label ids are validated on the "
